@@ -307,5 +307,5 @@ def parts(tier):
     if tier == 'quick':
         return [Part('programs', check_program, strategy=s_program, examples=2500, shards=4),
                 Part('constructors', check_ctor, strategy=s_ctor(), examples=1500, shards=2)]
-    return [Part('programs', check_program, strategy=s_program, examples=40000, shards=14),
+    return [Part('programs', check_program, strategy=s_program, examples=40000, shards=14, fuzz_runs=100000, fuzz_shards=8),
             Part('constructors', check_ctor, strategy=s_ctor(), examples=20000, shards=2)]
